@@ -518,7 +518,9 @@ func init() { registerReplay(c07Prop) }
 // ---- mutators -----------------------------------------------------------------------------------
 
 var c07Hostile = []string{"DBLINK      X:", "DBLINK      X", "REFERENCE   1234", "REFERENCE   ", "LOCUS", "ORIGIN", "ORIGIN      ", "//", "FEATURES", "CONTIG      join(",
-	"CONTIG      join(A:1..", "ABCDEFGHIJKLMN   x", "  ORGANISM", "            ", "     gene            ", "     misc_recombination_x 1..20", "     gene 1..20", "                     /note=\"", "                     /", "        1 ", ">", "\r", "\x00"}
+	"CONTIG      join(A:1..", "ABCDEFGHIJKLMN   x", "  ORGANISM", "            ", "     gene            ", "     misc_recombination_x 1..20", "     gene 1..20", "                     /note=\"", "                     /", "        1 ", ">", "\r", "\x00",
+	"ACCESSION   X REGION: 5..4", "ACCESSION   X REGION: 1..0", "ACCESSION   X REGION: <8..>7", "ACCESSION   X REGION: 10..2", "ACCESSION   X REGION: 0..0", "ACCESSION   X REGION: 3",
+	"ACCESSION   X REGION: complement(1..2)", "ACCESSION   X REGION: 99999999999999999999..1", "VERSION     ", "KEYWORDS    ", "CONTIG      join(A:5..4)", "CONTIG      join(A.1:0..0)"}
 
 // c07BlankFields: every field name of the flat file with its value replaced by nothing but 0..3 blanks.
 var c07BlankFields = func() []string {
